@@ -91,6 +91,8 @@ class Gen:
                 continue
             parts = s[3:].split()
             d = parts[0]
+            if d in ("fn", "struct", "enum", "item") and len(parts) > 1:
+                parts[1] = parts[1].replace("+", " ")   # `impl(Trait+for+Type)` in a path
             if d == "unit":
                 self.unit = parts[1]
             elif d == "source":
@@ -434,6 +436,14 @@ class Gen:
                     i += 1
                     continue
                 j = i + 1
+                # `while let PAT = E {` / `for PAT in E {`: the pattern may contain braces -- skip it first
+                if (t.s == "while" and toks[nx].s == "let") or t.s == "for":
+                    stop = "=" if t.s == "while" else "in"
+                    while not (toks[j].s == stop and toks[j].k in ("p", "id")):
+                        if toks[j].k == "o":
+                            j = match_close(toks, j)
+                        j += 1
+                    j += 1
                 while not (toks[j].k == "o" and toks[j].s == "{"):
                     if toks[j].k == "o":
                         j = match_close(toks, j)
@@ -501,6 +511,37 @@ class Gen:
                         self.count("R2-call")
             i += 1
 
+        # ---- R7: binding-free reference patterns  `&Path`, `&Path { .. }`  ->  `Path`, `Path { .. }`
+        # (Verus: "ref patterns not supported"; identical by default binding modes because nothing is bound)
+        drop_tok = set()
+        i = bo + 1
+        while i < bc:
+            if excluded(i):
+                i += 1
+                continue
+            t = toks[i]
+            if t.k == "p" and t.s == "&":
+                pv = toks[prev_sig(toks, i)]
+                nx = sig(toks, i + 1)
+                if (pv.s in ("(", ",", "|") or (pv.k == "id" and pv.s == "let")) and toks[nx].k == "id" and toks[nx].s[0].isupper():
+                    j = nx
+                    while toks[sig(toks, j + 1)].s == ":" and toks[sig(toks, j + 1) + 1].s == ":":
+                        j = sig(toks, sig(toks, j + 1) + 2)
+                    if toks[j].k == "id" and toks[j].s[0].isupper():
+                        a = sig(toks, j + 1)
+                        ok = False
+                        if toks[a].k == "o" and toks[a].s == "{":
+                            inner = [x.s for x in toks[a + 1:match_close(toks, a)] if x.k not in ("ws", "com")]
+                            if inner == [".", "."]:
+                                a = sig(toks, match_close(toks, a) + 1)
+                                ok = True
+                        elif toks[a].k != "o":
+                            ok = True
+                        if ok and (toks[a].s in (",", ")", "|") or (toks[a].s == "=" and toks[a + 1].s in (">", " ", "\n") or toks[a].s == "=")):
+                            drop_tok.add(i)
+                            self.count("R7")
+            i += 1
+
         # ---- nested fns: replaced by processed text
         nested_out = {}
         for c in nest_items:
@@ -539,6 +580,9 @@ class Gen:
                 continue
             tk = toks[i]
             if tk.k == "com" and tk.s.startswith("///"):
+                i += 1
+                continue
+            if i in drop_tok:
                 i += 1
                 continue
             chunks.append((replace_tok.get(i, tk.s), tk.a, {}))
